@@ -212,12 +212,59 @@ def sign_query(e, truth_set):
     if not (possible & ts):
         p.narrow(key, poly, possible)
         return False
+    red = _reduce_to_single_factor(p, poly)
+    if red is not None:
+        sigma, f, mult = red
+        if mult % 2 == 1:
+            fts = ts if sigma > 0 else frozenset(_FLIP[t] for t in ts)
+            r = sign_query(f, fts)
+        else:
+            nz_in = (POS if sigma > 0 else NEG) in ts
+            zero_in = ZERO in ts
+            if nz_in == zero_in:
+                r = nz_in
+            else:
+                r = sign_query(f, frozenset((NEG, POS))) == nz_in
+        p.narrow(key, poly, (possible & ts) if r else (possible - ts))
+        return r
     d_ = p.choose(('sign', str(poly)[:60], tuple(sorted(ts))))
     if d_ == 0:
         p.narrow(key, poly, possible & ts)
         return True
     p.narrow(key, poly, possible - ts)
     return False
+
+
+def _reduce_to_single_factor(p, poly):
+    """poly = sigma * (strictly signed factors) * f**mult with exactly one factor f of undetermined sign:
+    returns (sigma, f, mult) so that the decision is taken (and remembered) on f itself; None otherwise"""
+    if poly.count_ops() > 600:
+        return None
+    try:
+        coeff, factors = sp.factor_list(poly)
+    except Exception:
+        return None
+    if len(factors) <= 1 and (not factors or factors[0][1] == 1):
+        return None
+    sigma = 1 if coeff > 0 else -1
+    rest = []
+    for f, mult in factors:
+        key, fp, flip = canon(f)
+        if key is None:
+            return None
+        fs = set(p.sign_set(key, fp))
+        if flip:
+            fs = {_FLIP[x] for x in fs}
+        if fs == {POS}:
+            continue
+        if fs == {NEG}:
+            if mult % 2:
+                sigma = -sigma
+            continue
+        rest.append((f, mult))
+    if len(rest) != 1:
+        return None
+    return sigma, rest[0][0], rest[0][1]
 
 
 _MUL = {(NEG, NEG): POS, (NEG, POS): NEG, (POS, NEG): NEG, (POS, POS): POS}
